@@ -852,6 +852,42 @@ static void byte_sweep(const std::string &job)
                 }
             }
         }
+        // the byte inside a block: every block append and block pop (both variants), and "%s" formatting, carry it like any other byte
+        {
+            const char blk[5] = {'p', (char)b, 'q', (char)b, 0};
+            size_t zlen = b ? 4 : 1; // what a C-string reader sees
+            a_str *src = a_str_new();
+            a_str_catn(src, blk, 4);
+            for (int form = 0; form < 9 && why.empty(); ++form)
+            {
+                static const char *fname[] = {"catn", "catn_", "cats", "cats_", "cat", "cat_", "catf(\"%s\")", "getn", "getn_"};
+                a_str_setn_(s, 0);
+                a_str_catn(s, "ab", 2);
+                int rc = 0;
+                size_t want = 4;
+                char back[4] = {0, 0, 0, 0};
+                switch (form)
+                {
+                case 0: rc = a_str_catn(s, blk, 4); break;
+                case 1: rc = a_str_catn_(s, blk, 4); break;
+                case 2: rc = a_str_cats(s, blk); want = zlen; break;
+                case 3: rc = a_str_cats_(s, blk); want = zlen; break;
+                case 4: rc = a_str_cat(s, src); break;
+                case 5: rc = a_str_cat_(s, src); break;
+                case 6: rc = a_str_catf(s, "%s", blk) == (int)zlen ? 0 : -1; want = zlen; break;
+                default:
+                    a_str_catn(s, blk, 4);
+                    rc = (form == 7 ? a_str_getn(s, back, 4) : a_str_getn_(s, back, 4)) == 4 && memcmp(back, blk, 4) == 0 ? 0 : -1;
+                    want = 0;
+                }
+                bool term = form != 1 && form != 3 && form != 5 && form != 8;
+                if (rc != 0 || a_str_len(s) != 2 + want || memcmp(a_str_ptr(s), "ab", 2) != 0 || memcmp(a_str_ptr(s) + 2, blk, want) != 0 || (term && a_str_ptr(s)[2 + want] != 0))
+                {
+                    why = std::string("block ") + fname[form] + " does not carry the byte like any other (return value, length, content or terminator)";
+                }
+            }
+            a_str_die(src);
+        }
         // comparison with the byte whose top bit is flipped
         a_str *t = a_str_new();
         a_str_setn_(s, 0);
@@ -866,7 +902,7 @@ static void byte_sweep(const std::string &job)
         {
             char hex[8];
             snprintf(hex, sizeof hex, "0x%02X", b);
-            vx::viol(std::string("str|byte-sweep|") + (why.find("getc") != std::string::npos ? "getc" : why.find("catc") != std::string::npos ? "catc" : why.find("trim") != std::string::npos ? "trim" : why.find("cmp") != std::string::npos ? "cmp" : "memory"),
+            vx::viol(std::string("str|byte-sweep|") + (why.find("getc") != std::string::npos ? "getc" : why.find("catc") != std::string::npos ? "catc" : why.find("trim") != std::string::npos ? "trim" : why.find("cmp") != std::string::npos ? "cmp" : why.find("block") != std::string::npos ? "block" : "memory"),
                      std::string("byte ") + hex + ": " + why, "{\"job\":" + vx::jstr(job) + ",\"byte\":" + std::to_string(b) + "}");
             shim::reset();
         }
